@@ -46,8 +46,8 @@ class LineStage:
         reported = set()
         for m in mism:
             # at most max_minimise reports per class of failing op (kind, first two tokens of the op)
-            cls = (m.kind, " ".join(m.script.ops[m.index].split(" ")[:2]) if m.index < len(m.script.ops) else "")
-            if done.get(cls, 0) >= self.max_minimise or len(reported) >= 12:
+            cls = (m.kind, " ".join(m.script.ops[m.index].split(" ")[:3]) if m.index < len(m.script.ops) else "")
+            if done.get(cls, 0) >= self.max_minimise or len(reported) >= 16:
                 continue
             done[cls] = done.get(cls, 0) + 1
             mm = core.minimise(m, exe, lean_exe, self.normalize, oracle=self.oracle)
